@@ -58,9 +58,12 @@ def check(run, prog):
             if z is None:
                 continue
             a = A[al] if parity == "even" else sp.Rational(1, 2)
-            stored = z.attrs.get("_freq_align")
+            try:
+                stored = ev.getattr(z, "freq_align", FR())       # what the signal reports, wherever the rule for odd counts is applied
+            except (Raised, Unsupported):
+                stored = z.attrs.get("_freq_align")
             ck.same("R2", setter.where, f"freq_align='{al}', {parity} channel count",
-                    "stored alignment is the requested one for even nchan and forced to 'center' for odd nchan",
+                    "the alignment the signal reports is the requested one for even nchan and 'center' for odd nchan",
                     isinstance(stored, StrV) and stored.s == (al if parity == "even" else "center"),
                     found=repr(stored), expected=al if parity == "even" else "center", nontrivial=True)
             lab = labels(ck, ev, z, "R1", gfreq.where, f"channel_freqs evaluates ({al}, {parity})")
@@ -123,8 +126,11 @@ def check(run, prog):
                     if z is None:
                         continue
                     n_cls += 1
-                    stored = z.attrs.get("_freq_align")
-                    ck.same("R2", setter.where, tag, "stored alignment is the requested one for even nchan and forced to 'center' for odd nchan",
+                    try:
+                        stored = ev.getattr(z, "freq_align", FR())
+                    except (Raised, Unsupported):
+                        stored = z.attrs.get("_freq_align")
+                    ck.same("R2", setter.where, tag, "the alignment the signal reports is the requested one for even nchan and 'center' for odd nchan",
                             isinstance(stored, StrV) and stored.s == (al if parity == "even" else "center"), found=repr(stored),
                             expected=al if parity == "even" else "center", nontrivial=True)
                     lab = labels(ck, ev, z, "R1", gfreq.where, f"channel_freqs evaluates ({tag})")
@@ -161,8 +167,14 @@ def check(run, prog):
     for cls_name in (("RadioSignal",) if run.tier == "quick" else ("RadioSignal", "BasebandSignal", "FullStokesSignal")):
         for nchan in counts:
             for al in ("bottom", "center", "top"):
-                z = make_signal(prog, cls_name, n=nsample, nchan=nchan, freq_align=al if nchan % 2 == 0 else "center")
+                # the alignment is assigned through the package's own setter, for odd counts too: whatever that stores (and wherever the
+                # "odd counts are centred" rule is applied, setter or getter) is what the slicing code has to cope with
+                z = make_signal(prog, cls_name, n=nsample, nchan=nchan, freq_align="center")
                 ev0 = ck.evaluator()
+                try:
+                    ev0.setattr(z, "freq_align", StrV(al), FR())
+                except (Raised, Unsupported):
+                    z = make_signal(prog, cls_name, n=nsample, nchan=nchan, freq_align=al if nchan % 2 == 0 else "center")
                 lab0 = labels(ck, ev0, z, "R3", gfreq.where, "labels of the unsliced signal")
                 if lab0 is None:
                     continue
